@@ -144,17 +144,18 @@ func (k BaseKeeper) TransferOwnership(ctx sdk.Context, owner, newOwner sdk.AccAd
 		leftovers = append(leftovers, leftCoin)
 	}
 
-	// Add coins to new owner
-	err := k.addCoinsToAccount(ctx, newOwner, amount)
-	if err != nil {
-		return nil, err
-	}
-
-	// Remove coins from old owner
+	// Remove coins from old owner first, so that a transfer to oneself
+	// credits the already debited balance instead of being overwritten
 	for _, coin := range leftovers {
 		if err := k.setBalance(ctx, owner, coin); err != nil {
 			return nil, err
 		}
+	}
+
+	// Add coins to new owner
+	err := k.addCoinsToAccount(ctx, newOwner, amount)
+	if err != nil {
+		return nil, err
 	}
 
 	// Update holders index
